@@ -119,6 +119,11 @@ def make_fault(rng, prog, cls, block):
             m = rng.choice(free)
             return rng.choice(["lda %s", "sta %s,x", ".word %s", "lda #<%s", ".byte %s + 1"]) % m.d.name, "last"
         return rng.choice(['.byte 1 + "a"', 'lda #1 + "abc"', '.word "a" * 2', '.byte 2 - "x", 3', 'lda "a" + 1', '.dword ("q" + "r") + 1', 'cmp #("a" == 1)']), "last"
+    if cls == "segment-before-definition":
+        # code is put into a segment in front of that segment's definition (which replaces the segment: the code would vanish)
+        if pos_cls != "top-level" or not prog.has_segments:
+            return None, None
+        return '.segment "late_zz" { .byte 1, 2, 3 }\n.define segment { name = "late_zz" start = $7000 }', "any"
     if cls == "malformed":
         return rng.choice(["lda #", ".byte ,", "%%%", ")", "lda (", ".const = 5", ".if { nop }", "* = ", ".loop { nop }", "sta $10,", "lda #1 2", '.text "abc']), "last"
     if cls == "unclosed-block":
@@ -127,7 +132,7 @@ def make_fault(rng, prog, cls, block):
 
 
 CLASSES = ["undefined-symbol", "undefined-macro", "undefined-segment", "label-redefinition", "const-redefinition", "illegal-mode", "immediate-range",
-           "branch-range", "macro-arity", "malformed", "unclosed-block", "wrong-kind-of-value"]
+           "branch-range", "macro-arity", "malformed", "unclosed-block", "wrong-kind-of-value", "segment-before-definition"]
 SENTINEL = b"\x01\x08SENTINEL-FROM-AN-EARLIER-GOOD-BUILD"
 
 
@@ -270,7 +275,7 @@ def main(tier, seed):
     acc = run_sharded(shard, seed, tier, params)
     return finish(
         "C04", tier, seed, acc, t0, level="fault_enumeration",
-        rule="valid ProgGen programs (checked to assemble first) into which exactly one fault is injected: 12 classes (a number combined with a string or a macro name used as a value, undefined symbol / "
+        rule="valid ProgGen programs (checked to assemble first) into which exactly one fault is injected: 13 classes (code put into a segment in front of that segment's definition, a number combined with a string or a macro name used as a value, undefined symbol / "
              "macro / segment, label and constant redefinition, illegal addressing mode, immediate > 255, branch out of range, wrong macro "
              "arity, malformed statement, unclosed block) at a random live position (top level, scope, macro body of an invoked macro, "
              "loop body, taken conditional branch, segment block, imported file). `mos build --error-style Short` runs in a scratch "
